@@ -168,12 +168,26 @@ func runC07(c *Ctx) {
 				return true
 			}
 			keys := map[string]string{}
+			fromLookup := false
 			for _, el := range cl.Elts {
 				if kv, ok := el.(*ast.KeyValueExpr); ok {
 					keys[kv.Key.(*ast.Ident).Name] = types.ExprString(kv.Value)
+					if kv.Key.(*ast.Ident).Name == "Directive" {
+						// the value is a variable that receives the result of a Supervisor.Directive lookup
+						if o := objOf(info, kv.Value); o != nil {
+							ast.Inspect(np.Decl.Body, func(m ast.Node) bool {
+								if as, ok := m.(*ast.AssignStmt); ok && len(as.Rhs) == 1 && len(as.Lhs) >= 1 && objOf(info, as.Lhs[0]) == o {
+									if call, ok := ast.Unparen(as.Rhs[0]).(*ast.CallExpr); ok && callee(info, call) == dir {
+										fromLookup = true
+									}
+								}
+								return true
+							})
+						}
+					}
 				}
 			}
-			okMsg = keys["Directive"] == "directive" && keys["Strategy"] != "" && keys["Supervisor"] != "" && keys["Err"] != ""
+			okMsg = fromLookup && keys["Strategy"] != "" && keys["Supervisor"] != "" && keys["Err"] != ""
 			return true
 		})
 		c.Check(okMsg, "message-carries-directive", "the Panicking message carries the looked-up directive, the strategy, the supervisor and the error", c.P.Pos(np.Decl.Pos()), "Panicking literal changed")
